@@ -78,6 +78,9 @@ THEOREMS = [
      "cwalk tree [] (segments (h_path h ++ [c_slash] ++ h_public h)) = Some stP -> opened tree f = Some (names, isdir) -> "
      "f = error_path h (r_status r) \\/ isdir = true \\/ "
      "exists rel : list bytes, rel <> [] /\\ Forall (fun s => proper_name s = true) rel /\\ names = rev stP ++ rel"),
+    ("read_is_opened",
+     "forall (tree : node) (f c : bytes), starts_with [c_slash] f = true -> read_path (tree, []) (tree, []) f = Some c -> "
+     "forall (names : list bytes) (isdir : bool), opened tree f = Some (names, isdir) -> isdir = false /\\ descend tree names = Some (File c)"),
     # the predicates the statements use, pinned with their bodies
     ("def_unsafe",
      "forall d : bytes, unsafe d <-> ((exists a b, d = a ++ [c_dot; c_slash] ++ b) \\/ ~ (exists r, d = c_slash :: r) \\/ "
@@ -800,8 +803,6 @@ def extra_oracle(c, i):
             continue
         status, body, log, opened = o[1][0][1], o[1][1][1], o[1][2][1], [x[1] for x in o[1][3][1]]
         m, k = r[1][0][1], r[1][2][1]
-        if b"<overflow>" in opened:
-            return "inotify queue overflow (harness): " + _req_text(c, idx, r)
         # Cors::is_part_of_origin compares the AUTHORITY of the URI ("localhost" + what the target has before its first '/', '?', '#')
         # with the Origin header's: with such a target the site's own Origin is a foreign one
         if r[1][1][1][:1] not in (b"/", b"?", b"#"):
@@ -938,6 +939,23 @@ TECHNIQUE = ("Coq proof (model satisfies spec for all inputs and all histories) 
              "(direct calls, the in-process pipeline kvarn::handle_cache on a fixture tree, kvarn::handle_connection over loopback HTTP/1.1 "
              "and TLS+HTTP/2, file-system access observed with inotify and strace) + model-independent oracles on the pipeline answers and "
              "on the observed accesses")
+
+
+def harness_trouble(cases, impl, model):
+    """a pipeline component most of whose scenarios could not be executed (no inotify instance, strace missing, connection trouble
+    under load ...) is no longer tied to the code: that is a harness error, not a quiet pass"""
+    import re
+    tot, ne = {}, {}
+    for c in cases:
+        if c.comp in PIPE_COMPS or c.comp == SYS_COMP:
+            tot[c.comp] = tot.get(c.comp, 0) + 1
+            i = impl.get(c.id)
+            if i is None or c.id not in model or re.match(r"\(L \(N 96\) \(N ", i):
+                ne.setdefault(c.comp, []).append(c.id)
+    bad = {k: v for k, v in ne.items() if len(v) > max(2, tot[k] // 10)}
+    if bad:
+        return "pipeline scenarios that could not be executed: " + "; ".join("%s %d of %d (%s ...)" % (k, len(v), tot[k], ", ".join(v[:5])) for k, v in sorted(bad.items()))
+    return None
 
 
 def extra_coverage(cases, impl, model, spec):
